@@ -359,8 +359,9 @@ static void worker_main(const Config &cfg, int k, long long first_run, int wfd, 
         if (pid == 0) {
           close(pfd[0]);
           Outcome oc = exec_plan(p, false);
-          std::string l = oc.to_line() + "\n";
-          ssize_t w = write(pfd[1], l.data(), l.size()); (void)w;
+          std::string l = oc.to_line() + "\nH " + g_hll_states.hex() + "\n";
+          size_t off = 0;
+          while (off < l.size()) { ssize_t w = write(pfd[1], l.data() + off, l.size() - off); if (w <= 0) break; off += (size_t)w; }
           _exit(0);
         }
         close(pfd[1]);
@@ -374,6 +375,8 @@ static void worker_main(const Config &cfg, int k, long long first_run, int wfd, 
           break;
         }
         o = Outcome::from_line(buf.substr(0, buf.find('\n')));
+        size_t hp = buf.find("\nH ");
+        if (hp != std::string::npos) { Hll h; h.from_hex(buf.substr(hp + 3)); g_hll_states.merge(h); }
       } else o = exec_plan(p, false);
       std::string line = "R " + std::to_string(run) + " " + std::to_string(sub) + " " + o.to_line();
       if (run < sample_runs * (long long)cfg.workers && sub == 0 && k == 0) { std::string b = plan_brief(p); Json jb(b); line += "\tS" + jb.dump(); }
